@@ -231,24 +231,36 @@ func checkC05(c *Check) {
 
 	// ---- R4 reassembler
 	const r4 = "C05.R4 reassembler: slot indexes in bounds; accumulate only for the same packet id, the same fragment count and an empty slot; a slot-array replacement resets packet id, count and size; assembly only on the count == len(slots) edge into a fresh buffer of the accumulated size"
-	lpD := newLinProver(p, feed)
-	nIdx := 0
-	allInstrs(feed, func(in ssa.Instruction) {
-		ia, ok := in.(*ssa.IndexAddr)
-		if !ok || !isLoadOfFieldC05(lpD, ia.X, fFrags) {
-			return
-		}
-		if !ia.Pos().IsValid() {
-			return // range loop
-		}
-		nIdx++
-		ok2, missing := lpD.siteBounds(ia)
-		c.Req(ok2, fmt.Sprintf("C05.R4:slot-index-in-bounds#%d", nIdx), r4, p.InstrPos(ia), "slot index not proved inside the slot array ("+missing+"): a fragment id >= the fragment count indexes out of range")
+	// the reassembler = Feed plus the helpers of its package it was split into
+	grp := helperGroup(p, feed, func(f *ssa.Function) bool {
+		pk := fnPkg(f)
+		return pk != nil && pk.Pkg.Path() == pFrag
 	})
+	for _, g := range grp {
+		c.Saw(fnName(g))
+	}
+	lifter := newC03Lifter(c)
+	lifter.prefix = "C05.R4:slot-index-precondition"
+	nIdx := 0
+	for _, g := range grp {
+		lpD := lifter.prover(g)
+		allInstrs(g, func(in ssa.Instruction) {
+			ia, ok := in.(*ssa.IndexAddr)
+			if !ok || !isLoadOfFieldC05(lpD, ia.X, fFrags) {
+				return
+			}
+			if !ia.Pos().IsValid() {
+				return // range loop
+			}
+			nIdx++
+			ok2, missing := lifter.boundsProved(ia)
+			c.Req(ok2, fmt.Sprintf("C05.R4:slot-index-in-bounds#%d", nIdx), r4, p.InstrPos(ia), "slot index not proved inside the slot array ("+missing+"): a fragment id >= the fragment count indexes out of range")
+		})
+	}
 	c.Floor("C05.R4:slot-indexes", nIdx, 2)
 	// accumulate branch: non-constant store to count
 	nAcc := 0
-	for _, fr := range fieldRefs([]*ssa.Function{feed}, fCount) {
+	for _, fr := range fieldRefs(grp, fCount) {
 		if fr.Kind != "store" {
 			continue
 		}
@@ -257,7 +269,7 @@ func checkC05(c *Check) {
 		}
 		nAcc++
 		pos := p.InstrPos(fr.Instr)
-		samePkt := guardedBy(fr.Instr, func(cond ssa.Value, pol bool) bool {
+		samePkt := guardedByIP(p, fr.Instr, 0, func(cond ssa.Value, pol bool) bool {
 			b, ok := cond.(*ssa.BinOp)
 			if !ok || !((b.Op == token.EQL && pol) || (b.Op == token.NEQ && !pol)) {
 				return false
@@ -265,7 +277,7 @@ func checkC05(c *Check) {
 			return (isLoadOfField(b.X, fPkt) && fieldNameOfLoad(b.Y) == "PacketID") || (isLoadOfField(b.Y, fPkt) && fieldNameOfLoad(b.X) == "PacketID")
 		})
 		c.Req(samePkt, "C05.R4:accumulate:same-packet", r4, pos, "a fragment is accumulated without the `packet id equals the current one` edge: fragments of different messages are mixed")
-		sameCount := guardedBy(fr.Instr, func(cond ssa.Value, pol bool) bool {
+		sameCount := guardedByIP(p, fr.Instr, 0, func(cond ssa.Value, pol bool) bool {
 			b, ok := cond.(*ssa.BinOp)
 			if !ok || !((b.Op == token.EQL && pol) || (b.Op == token.NEQ && !pol)) {
 				return false
@@ -288,7 +300,7 @@ func checkC05(c *Check) {
 			return (isLen(b.X) && isCnt(b.Y)) || (isLen(b.Y) && isCnt(b.X))
 		})
 		c.Req(sameCount, "C05.R4:accumulate:same-count", r4, pos, "a fragment is accumulated without the `fragment count equals the slot array length` edge")
-		emptySlot := guardedBy(fr.Instr, func(cond ssa.Value, pol bool) bool {
+		emptySlot := guardedByIP(p, fr.Instr, 0, func(cond ssa.Value, pol bool) bool {
 			x, isNil, ok := nilTest(cond, pol)
 			if !ok || !isNil {
 				return false
@@ -304,11 +316,11 @@ func checkC05(c *Check) {
 	}
 	c.Floor("C05.R4:accumulate-sites", nAcc, 1)
 	// the accumulated size grows only together with the count (same empty-slot edge)
-	for _, fr := range fieldRefs([]*ssa.Function{feed}, fSize) {
+	for _, fr := range fieldRefs(grp, fSize) {
 		if fr.Kind != "store" || !dependsOnField(fr.Val, fSize) {
 			continue
 		}
-		emptySlot := guardedBy(fr.Instr, func(cond ssa.Value, pol bool) bool {
+		emptySlot := guardedByIP(p, fr.Instr, 0, func(cond ssa.Value, pol bool) bool {
 			x, isNil, ok := nilTest(cond, pol)
 			if !ok || !isNil {
 				return false
@@ -323,7 +335,7 @@ func checkC05(c *Check) {
 		c.Req(emptySlot, "C05.R4:accumulate:size-with-empty-slot", r4, p.InstrPos(fr.Instr), "the accumulated size grows without the `slot is empty` edge: a duplicate fragment inflates the reassembled message")
 	}
 	// reset: a new slot array comes with new pktID, count, size
-	for _, fr := range fieldRefs([]*ssa.Function{feed}, fFrags) {
+	for _, fr := range fieldRefs(grp, fFrags) {
 		if fr.Kind != "store" {
 			continue
 		}
@@ -332,7 +344,7 @@ func checkC05(c *Check) {
 		}
 		for _, f := range []*types.Var{fPkt, fCount, fSize} {
 			found := false
-			for _, fr2 := range fieldRefs([]*ssa.Function{feed}, f) {
+			for _, fr2 := range fieldRefs(grp, f) {
 				if fr2.Kind == "store" && (dominates(fr.Instr, fr2.Instr) || dominates(fr2.Instr, fr.Instr)) && sameStraightLine(fr.Instr, fr2.Instr) {
 					found = true
 					if f == fCount {
@@ -345,14 +357,14 @@ func checkC05(c *Check) {
 	}
 	// assembly
 	nAsm := 0
-	allInstrs(feed, func(in ssa.Instruction) {
+	allInstrsOf(grp, func(in ssa.Instruction) {
 		mk, ok := in.(*ssa.MakeSlice)
 		if !ok || !isBytesOrString(mk.Type()) {
 			return
 		}
 		nAsm++
 		c.Req(isLoadOfField(mk.Len, fSize), "C05.R4:assemble:size", r4, p.InstrPos(mk), "the assembly buffer is not sized by the accumulated size")
-		full := guardedBy(mk, func(cond ssa.Value, pol bool) bool {
+		full := guardedByIP(p, mk, 0, func(cond ssa.Value, pol bool) bool {
 			b, ok := cond.(*ssa.BinOp)
 			if !ok || !((b.Op == token.EQL && pol) || (b.Op == token.NEQ && !pol)) {
 				return false
@@ -392,7 +404,7 @@ func checkC05(c *Check) {
 			base := "C05.R5:" + fnName(fn)
 			// errors.As edge
 			var target ssa.Value
-			asEdge := guardedBy(call, func(cond ssa.Value, pol bool) bool {
+			asEdge := guardedByIP(p, call, 0, func(cond ssa.Value, pol bool) bool {
 				ac, ok := resolve(cond).(*ssa.Call)
 				if !ok || !pol || !calleeIs(ac, "errors", "As") || len(ac.Call.Args) != 2 {
 					return false
@@ -408,41 +420,10 @@ func checkC05(c *Check) {
 			})
 			c.Req(asEdge, base+":only-when-too-large", r5, p.InstrPos(call), "fragmentation is attempted on a path that did not cross errors.As(err, *quic.DatagramTooLargeError): other send errors re-send the datagram in pieces")
 			// size argument from that error
-			sizeOK := false
-			if target != nil {
-				for v := range deps(call.Call.Args[1], depOpts{}) {
-					if u, ok := v.(*ssa.UnOp); ok && u.Op == token.MUL {
-						if fa, ok := u.X.(*ssa.FieldAddr); ok && structField(fa.X.Type(), fa.Field).Name() == "MaxDatagramPayloadSize" {
-							if base, ok := fa.X.(*ssa.UnOp); ok && base.X == target {
-								sizeOK = true
-							}
-						}
-					}
-				}
-			}
+			sizeOK := target != nil && c05SizeFromErr(p, call.Call.Args[1], fn, target, 0)
 			c.Req(sizeOK, base+":size-from-error", r5, p.InstrPos(call), "the fragment size limit is not the MaxDatagramPayloadSize reported by the too-large error")
 			// packet id stored before, in [1,65535]
-			lp := newLinProver(p, fn)
-			pidOK := false
-			allInstrs(fn, func(in ssa.Instruction) {
-				st, ok := in.(*ssa.Store)
-				if !ok {
-					return
-				}
-				fa, ok := st.Addr.(*ssa.FieldAddr)
-				if !ok || structField(fa.X.Type(), fa.Field).Name() != "PacketID" || !dominates(st, call) {
-					return
-				}
-				if resolve(fa.X) != resolve(call.Call.Args[0]) {
-					return
-				}
-				cx := lp.newCtx(st)
-				// the stored uint16 is a conversion/sum: prove the mathematical value is in [1,65535]
-				v := lp.linWide(st.Val, cx)
-				if lp.proveAt(st, linConst(1), v, 0, nil) && lp.proveAt(st, v, linConst(65535), 0, nil) {
-					pidOK = true
-				}
-			})
+			pidOK := c05PacketIDStored(p, call, call.Call.Args[0], 0)
 			c.Req(pidOK, base+":packet-id-nonzero", r5, p.InstrPos(call), "no store of a packet id proved to be in [1,65535] dominates the fragmentation (id 0 marks an unfragmented message; a wrapped id collides with it)")
 			// stop at first error: from a send inside the loop, the loop cannot continue over the error edge
 			stopOK, nSend := true, 0
@@ -613,6 +594,103 @@ func fieldNameOfLoad(v ssa.Value) string {
 		return fieldNameOfLoad(x.X)
 	}
 	return ""
+}
+
+// c05SizeFromErr: v is computed from the MaxDatagramPayloadSize field of the
+// error object `target`; when v comes in through a parameter of an unexported
+// helper, every call site must pass such a value.
+func c05SizeFromErr(p *Prog, v ssa.Value, fn *ssa.Function, target ssa.Value, depth int) bool {
+	var params []*ssa.Parameter
+	for d := range deps(v, depOpts{}) {
+		if u, ok := d.(*ssa.UnOp); ok && u.Op == token.MUL {
+			if fa, ok := u.X.(*ssa.FieldAddr); ok && structField(fa.X.Type(), fa.Field).Name() == "MaxDatagramPayloadSize" {
+				if base, ok := fa.X.(*ssa.UnOp); ok && base.X == target {
+					return true
+				}
+			}
+		}
+		if prm, ok := d.(*ssa.Parameter); ok && prm.Parent() == fn {
+			params = append(params, prm)
+		}
+	}
+	if depth >= 2 || len(params) == 0 {
+		return false
+	}
+	sites, ok := visibleCallSites(p, fn)
+	if !ok {
+		return false
+	}
+	for _, prm := range params {
+		idx := -1
+		for i, q := range fn.Params {
+			if q == prm {
+				idx = i
+			}
+		}
+		all := true
+		for _, site := range sites {
+			arg := c03ArgAt(site, idx)
+			if arg == nil || !c05SizeFromErr(p, arg, site.Parent(), target, depth+1) {
+				all = false
+			}
+		}
+		if all {
+			return true
+		}
+	}
+	return false
+}
+
+// c05PacketIDStored: a store of a packet id proved to be in [1,65535] into
+// msg.PacketID dominates `at` (in the same function, or before every call of the
+// unexported helper that receives msg as a parameter).
+func c05PacketIDStored(p *Prog, at ssa.Instruction, msg ssa.Value, depth int) bool {
+	fn := at.Parent()
+	lp := newLinProver(p, fn)
+	found := false
+	allInstrs(fn, func(in ssa.Instruction) {
+		st, ok := in.(*ssa.Store)
+		if !ok || found {
+			return
+		}
+		fa, ok := st.Addr.(*ssa.FieldAddr)
+		if !ok || structField(fa.X.Type(), fa.Field).Name() != "PacketID" || !dominates(st, at) {
+			return
+		}
+		if resolve(fa.X) != resolve(msg) {
+			return
+		}
+		cx := lp.newCtx(st)
+		// the stored uint16 is a conversion/sum: prove the mathematical value is in [1,65535]
+		v := lp.linWide(st.Val, cx)
+		if lp.proveAt(st, linConst(1), v, 0, nil) && lp.proveAt(st, v, linConst(65535), 0, nil) {
+			found = true
+		}
+	})
+	if found || depth >= 2 {
+		return found
+	}
+	prm, ok := resolve(msg).(*ssa.Parameter)
+	if !ok {
+		return false
+	}
+	sites, ok := visibleCallSites(p, fn)
+	if !ok {
+		return false
+	}
+	idx := -1
+	for i, q := range fn.Params {
+		if q == prm {
+			idx = i
+		}
+	}
+	for _, site := range sites {
+		arg := c03ArgAt(site, idx)
+		if arg == nil || !c05PacketIDStored(p, site, arg, depth+1) {
+			return false
+		}
+	}
+	return true
 }
 
 func isLoadOfFieldC05(lp *linProver, v ssa.Value, f *types.Var) bool {
